@@ -22,6 +22,10 @@ pub struct LogFile {
     pub id: u64,
     pub entries: Vec<Entry>,
     pub torn_tail: Option<String>,
+    /// a line that is not valid UTF-8 after this many entries (a tear inside a multi-byte character that later appends
+    /// continued behind): archiving this file may fail - then nothing is deleted - or must keep every valid entry
+    #[serde(default)]
+    pub bad_line_at: Option<usize>,
 }
 
 #[derive(Clone, Debug, Serialize, Deserialize)]
@@ -70,8 +74,11 @@ fn round_strategy(excl_width: bool) -> BoxedStrategy<Round> {
         .prop_flat_map(|(base, n)| {
             let files = (0..n as u64)
                 .map(|i| {
-                    (prop::collection::vec(entry(1..1_000_000_000), 0..8), prop::option::weighted(0.15, prop::sample::select(vec!["{\"timestamp\":17", "garbage", "{"])))
-                        .prop_map(move |(entries, torn)| LogFile { id: base + i, entries, torn_tail: torn.map(|s| s.to_string()) })
+                    (prop::collection::vec(entry(1..1_000_000_000), 0..8), prop::option::weighted(0.15, prop::sample::select(vec!["{\"timestamp\":17", "garbage", "{"])), prop::option::weighted(0.06, 0usize..8))
+                        .prop_map(move |(entries, torn, bad)| {
+                            let bad_line_at = bad.map(|p| p.min(entries.len()));
+                            LogFile { id: base + i, entries, torn_tail: torn.map(|s| s.to_string()), bad_line_at }
+                        })
                 })
                 .collect::<Vec<_>>();
             (files, 0u64..=(n as u64 + 1), prop_oneof![5 => Just(Fault::None), 1 => Just(Fault::ArchiveDirIsFile), 4 => prop::collection::vec(0usize..n, 1..=n).prop_map(Fault::ObstacleAt)], Just(base))
@@ -156,7 +163,7 @@ fn run_case(c: &Case, rep: &mut CaseReport) -> Verdict {
         let files_json: Vec<Value> = r
             .files
             .iter()
-            .map(|f| json!({"id": f.id, "torn_tail": f.torn_tail, "entries": f.entries.iter().map(|e| json!({"ts": e.ts, "ctx": e.ctx, "type": e.ty, "payload": e.payload, "event_id": e.event_id})).collect::<Vec<_>>()}))
+            .map(|f| json!({"id": f.id, "torn_tail": f.torn_tail, "bad_line_at": f.bad_line_at, "entries": f.entries.iter().map(|e| json!({"ts": e.ts, "ctx": e.ctx, "type": e.ty, "payload": e.payload, "event_id": e.event_id})).collect::<Vec<_>>()}))
             .collect();
         let written = match db.req(json!({"op":"internal","what":"mkwal","shard":7,"files": files_json})) {
             Ok(v) => v,
@@ -225,9 +232,22 @@ fn run_case(c: &Case, rep: &mut CaseReport) -> Verdict {
             _ => BTreeSet::new(),
         };
         let dir_fault = matches!(r.fault, Fault::ArchiveDirIsFile) && ri == 0;
+        // a log with a line that is not valid UTF-8: archiving it may fail (then nothing at all may be deleted in this
+        // cleanup) or succeed (then the archive holds every valid entry, before and after the bad line)
+        let has_archive = |f: &LogFile| res["archives"].as_array().map(|a| a.iter().any(|x| x["name"].as_str() == Some(archive_name(f).as_str()))).unwrap_or(false);
+        let unreadable_failed: Vec<u64> = eligible.iter().filter(|f| f.bad_line_at.is_some() && !has_archive(f)).map(|f| f.id).collect();
+        if !unreadable_failed.is_empty() {
+            rep.label("file:invalid-utf8-line:archiving-failed");
+            if !deleted.is_empty() {
+                return Verdict::fail("log-deleted-although-archiving-failed", detail("a log with an undecodable line was not archived, yet log files were deleted"));
+            }
+        }
         for f in &eligible {
-            if obstructed.contains(&f.id) || dir_fault {
+            if obstructed.contains(&f.id) || dir_fault || unreadable_failed.contains(&f.id) {
                 continue;
+            }
+            if f.bad_line_at.is_some() {
+                rep.label("file:invalid-utf8-line:archived");
             }
             let an = archive_name(f);
             if let Some((r0, id0, old)) = expected_archives.get(&an) {
